@@ -250,6 +250,33 @@ type c06BsSpec struct {
 	Blks   []c06Blk      `json:"blks"`
 	Ns     []byte        `json:"ns,omitempty"`
 	Script []c06Delivery `json:"script"`
+	// which block store the getter is wired to: "" / "light" = a blockstore over a datastore (nodebuilder
+	// blockstoreFromDatastore, light nodes), "bridge" = the read-only blockstore over the node's EDS store with the
+	// metrics wrapper (nodebuilder blockstoreFromEDSStore, bridge nodes; the store does not hold the block)
+	Bstore string `json:"bstore,omitempty"`
+}
+
+var (
+	c06BridgeStoreOnce sync.Once
+	c06BridgeStore     *store.Store
+)
+
+func (h *c06H) blockstoreFor(kind string) blockstore.Blockstore {
+	if kind != "bridge" {
+		return blockstore.NewBlockstore(ds_sync.MutexWrap(datastore.NewMapDatastore()))
+	}
+	c06BridgeStoreOnce.Do(func() {
+		st, err := store.NewStore(store.DefaultParameters(), h.t.TempDir())
+		if err != nil {
+			h.t.Fatalf("bridge store: %v", err)
+		}
+		c06BridgeStore = st
+	})
+	bs, err := bitswap.NewBlockstoreWithMetrics(&bitswap.Blockstore{Getter: c06BridgeStore})
+	if err != nil {
+		h.t.Fatalf("bridge blockstore: %v", err)
+	}
+	return bs
 }
 
 func (h *c06H) bsDeliveries(rng *zv.Rand, sq *c06Square, blks []c06Blk, cids []cid.Cid, maxBad int) []c06Delivery {
@@ -389,7 +416,7 @@ func (h *c06H) runBitswap(sp c06BsSpec) {
 	}
 	cctx := newC06Ctx()
 	ex := &c06Exchange{script: sp.Script, ctx: cctx}
-	g := bitswap.NewGetter(ex, blockstore.NewBlockstore(ds_sync.MutexWrap(datastore.NewMapDatastore())), availability.RequestWindow)
+	g := bitswap.NewGetter(ex, h.blockstoreFor(sp.Bstore), availability.RequestWindow)
 	g.Start()
 	defer g.Stop()
 
@@ -807,7 +834,11 @@ func c06Bitswap(t *testing.T, r *zv.Run, h *c06H, replayOnly bool) {
 		if m == "eds" && sq.k > 4 {
 			sqi, sq = 1, h.squares[1]
 		}
-		sp := c06BsSpec{Method: m, Sq: sqi}
+		sp := c06BsSpec{Method: m, Sq: sqi, Bstore: "light"}
+		if rng.Intn(3) == 0 {
+			sp.Bstore = "bridge"
+		}
+		h.r.Count("bitswap_blockstore", sp.Bstore)
 		w := 2 * sq.k
 		switch m {
 		case "samples":
